@@ -263,18 +263,18 @@ CHECKS["C07"] = {
 }
 
 CHECKS["C16"] = {
-    "harnesses": [H("c16.VH_socks5", {"L": 17 if i == 2 else 16, "ROUNDS": 1, "CFG": i}, {"L": 18, "ROUNDS": 2, "CFG": i}, variant=f"cfg{i}", weight=3,
+    "harnesses": [H("c16.VH_socks5", {"L": 17 if i == 2 else 16, "ROUNDS": 1, "CFG": i}, {"L": 17, "ROUNDS": 2, "CFG": i}, variant=f"cfg{i}", weight=3,
                     covers=(["refused", "outbound action attempted"] if i not in (4, 5) else ["refused"]) + (["authenticated"] if i in (2, 3, 6) else []))
                   for i in range(9)] + [
-        H("c16.VH_socks5_pair", {"L": 12, "ROUNDS": 1, "PAIR": i}, {"L": 14, "ROUNDS": 2, "PAIR": i}, variant=f"pair{i}", weight=3,
+        H("c16.VH_socks5_pair", {"L": 12, "ROUNDS": 1, "PAIR": i}, {"L": 13, "ROUNDS": 2, "PAIR": i}, variant=f"pair{i}", weight=3,
           covers=["second handler provisioned", "refused", "outbound action attempted"]) for i in range(4)] + [
         H("c16.VH_socks5_pair", {"L": 16, "ROUNDS": 1, "PAIR": i}, {"L": 17, "ROUNDS": 1, "PAIR": i}, variant=f"pair{i}", weight=3,
           covers=["second handler provisioned", "refused", "outbound action attempted", "authenticated"]) for i in (4, 5)],
     "level_text": "bounded model checking of the real Socks5Handler.Provision + Handle with the go-socks5 library's ServeConn, method negotiation, user/password authentication, request parsing and rule check executed from SSA over an arbitrary client byte stream; the three outbound actions (and the resolver) are intercepted; asserted: an outbound action is started only for an enabled command and, when credentials are configured, only if the user/password bytes on the wire equal a configured pair (re-parsed independently per RFC 1928/1929)",
-    "level_note": "nine configurations (default commands; CONNECT only; BIND with one user; ASSOCIATE+BIND with two users incl. an empty password; a credential map holding only an empty user name; user names given as placeholders that resolve to nothing, alone and beside a real account; BIND only; ASSOCIATE only) and six pairs of handler instances provisioned one after the other (the first one is then served; for two pairs that differ only in a password - a reload that rotates it - the second one); client stream <= 16 (quick) / 18 (thorough) bytes delivered in 1-2 reads - enough for greeting, a 1-2 byte user and password and an IPv4 or short FQDN request; the native twin observes the outbound attempt through the reply code",
+    "level_note": "nine configurations (default commands; CONNECT only; BIND with one user; ASSOCIATE+BIND with two users incl. an empty password; a credential map holding only an empty user name; user names given as placeholders that resolve to nothing, alone and beside a real account; BIND only; ASSOCIATE only) and six pairs of handler instances provisioned one after the other (the first one is then served; for two pairs that differ only in a password - a reload that rotates it - the second one); client stream <= 16 (quick) / 17 (thorough) bytes delivered in 1-2 reads - enough for greeting, a 1-2 byte user and password and an IPv4 or short FQDN request; the native twin observes the outbound attempt through the reply code",
     "assumptions": ["handleConnect / handleBind / handleAssociate and DNSResolver.Resolve of go-socks5 are intercepted sinks", "zap/log are no-op stubs"],
     "outside": ["streams longer than the bound (long user names, IPv6 requests in the quick tier)", "placeholders that resolve to non-empty values", "what the outbound actions do once started"],
-    "bounds": {"quick": "stream <= 16 bytes, one read", "thorough": "stream <= 18 bytes (pairs: 14), two reads"},
+    "bounds": {"quick": "stream <= 16 bytes, one read", "thorough": "stream <= 17 bytes (pairs: 13; rotation pairs 17, one read), two reads"},
 }
 
 CHECKS["C17"] = {
@@ -364,13 +364,13 @@ CHECKS["C08"] = {
         H("c09.VH_partial", {}, {}, covers=["datagram read in pieces", "next datagram read"], **_envonly),
     ] + [
         # race mode: two goroutines through one provisioned matcher instance, same symbolic stream
-        H("c08.VH_" + m, {"params": {"SAME": 1}, "race": True}, {"params": {"SAME": 1, "L": lt}, "race": True, "preempt": 1}, variant="race",
+        H("c08.VH_" + m, {"params": {"SAME": 1}, "race": True}, {"params": {"SAME": 1, "L": lt}, "race": True, "preempt": (1 if w == 1 else 0)}, variant="race",
           covers=["matched concurrently"] + ([] if m in ("http",) else ["a stream matches"]), weight=w, **_envonly)
         for m, lt, w in [("ssh", 8, 1), ("xmpp", 54, 2), ("postgres", 14, 1), ("socks4", 10, 1), ("socks5", 8, 1), ("proxyproto", 14, 1), ("regexp", 7, 1),
                          ("wireguard", 148, 1), ("tls", 57, 4), ("rdp", 16, 2), ("winbox", 40, 2), ("openvpn", 58, 3), ("http", 16, 1)]
     ] + [
         # independent streams and one pre-emption: verdicts equal the matcher's verdict on each stream alone
-        H("c08.VH_" + m, {"params": {"SAME": 0, "L": lq}, "race": True, "preempt": 1}, {"params": {"SAME": 0, "L": lt}, "race": True, "preempt": 2}, variant="indep",
+        H("c08.VH_" + m, {"params": {"SAME": 0, "L": lq}, "race": True, "preempt": 1}, {"params": {"SAME": 0, "L": lt}, "race": True, "preempt": 1}, variant="indep",
           covers=["matched concurrently"], weight=3, **_envonly)
         for m, lq, lt in [("regexp", 6, 7), ("socks5", 4, 6), ("ssh", 4, 6)]
     ] + [
@@ -378,7 +378,7 @@ CHECKS["C08"] = {
         H("c13.VH_listener", {"params": {"CONNS": 2, "L": 2}, "race": True}, {"params": {"CONNS": 3, "L": 2}, "race": True, "preempt": 1}, variant="race", covers=["delivered and read"], weight=3, **_envonly),
         H("c13.VH_close_pending", {"params": {"CONNS": 2}, "race": True}, {"params": {"CONNS": 3}, "race": True, "preempt": 1}, variant="race", covers=["closed with pending connections"], weight=2, **_envonly),
         H("c09.VH_udp", {"params": {"KIND": 2, "DGRAMS": 2, "CLIENTS": 2}, "race": True}, {"params": {"KIND": 2, "DGRAMS": 3, "CLIENTS": 2}, "race": True, "preempt": 1}, variant="race", covers=["served"], weight=3, **_envonly),
-        H("c11.VH_relay", {"params": {"PEERS": 2, "BL": 2, "DL": 2, "UPL": 2}, "race": True}, {"params": {"PEERS": 2, "BL": 2, "DL": 2, "UPL": 2}, "race": True, "preempt": 1}, variant="race", covers=["relayed"], weight=4, **_envonly),
+        H("c11.VH_relay", {"params": {"PEERS": 2, "BL": 2, "DL": 2, "UPL": 2}, "race": True}, {"params": {"PEERS": 2, "BL": 2, "DL": 3, "UPL": 2}, "race": True}, variant="race", covers=["relayed"], weight=4, **_envonly),
         H("c11.VH_failwindow", {"params": {}, "race": True}, {"params": {}, "race": True, "preempt": 1}, variant="race", covers=["queried"], weight=1, **_envonly),
         H("c01.VH_step_tee", {"params": {"MAXB": 600}, "race": True}, {"params": {"MAXB": 3000}, "race": True}, variant="race", covers=["recorder ran"], weight=3, **_envonly),
         H("c01.VH_tee_vars", {"params": {"OFFSET0": 1, "READS": 1, "ROUNDS": 2}, "race": True}, {"params": {"OFFSET0": 1, "READS": 2, "ROUNDS": 2}, "race": True}, covers=["tee with handlers that set connection variables"], weight=2, **_envonly),
@@ -392,7 +392,7 @@ CHECKS["C08"] = {
     "level_note": "race detection is schedule-insensitive for the accesses a path performs (two unordered conflicting accesses are reported whatever order the engine ran them in), but it only sees the accesses of the explored paths: streams within the per-matcher bounds, two connections, the configurations listed; happens-before is over-approximated where the model is simplified (release joins, all earlier receives order a later send), so races may be missed but a reported one is a race under the Go memory model; only accesses attributed to repository code are reported (third-party libraries' internals - x/time/rate, go-socks5, zap - are not judged); three races were found this way and repaired (round_robin counter - first found by reading, openvpn lastDigest, Connection byte counters)",
     "assumptions": ["sync.Pool: Get returns the last Put object (quick) / any pooled object or a fresh one (thorough)", "sync/atomic operations are sequentially consistent and synchronise (Go memory model)", "the harness's own bookkeeping is excluded from race reports"],
     "outside": ["more than 2-3 simultaneous connections", "races inside third-party libraries and net/http", "accesses on paths outside the bounds (long streams, configurations not listed)", "Server.handle (non-listener) with a tee branch outliving the handler", "processor counts (the happens-before relation does not depend on them)"],
-    "bounds": {"quick": "2 goroutines per harness (3 for selection policies), streams within the C06 per-matcher bounds, cooperative schedules (+1 pre-emption for the independent-stream variants)", "thorough": "3 connections for the listener, adversarial pool, +1-2 pre-emptions"},
+    "bounds": {"quick": "2 goroutines per harness (3 for selection policies), streams within the C06 per-matcher bounds, cooperative schedules (+1 pre-emption for the independent-stream variants)", "thorough": "3 connections for the listener, adversarial pool, one pre-emption for the small harnesses (none for tls, relay, winbox, openvpn, rdp, xmpp)"},
 }
 CHECKS["C09"] = {
     "harnesses": [
